@@ -273,6 +273,13 @@ class SymExec:
             vals = [self.val(v) for v in s.value.elts]
             for t, v in zip(s.targets[0].elts, vals):
                 self.env[t.id] = v
+        elif isinstance(s, ast.Assign) and len(s.targets) == 1 and isinstance(s.targets[0], (ast.Tuple, ast.List)) \
+                and all(isinstance(t, ast.Name) for t in s.targets[0].elts):
+            # a, b = f(...): the components of one opaque value
+            whole = self.text(s.value)
+            self.val(s.value)
+            for i_, t in enumerate(s.targets[0].elts):
+                self.env[t.id] = Opaque(f"({whole})[{i_}]")
         elif isinstance(s, ast.Assign) and len(s.targets) == 1 and isinstance(s.targets[0], (ast.Subscript, ast.Attribute)):
             t = s.targets[0]
             if isinstance(t, ast.Subscript):
